@@ -62,6 +62,23 @@ impl Optimizer {
         }
     }
 
+    /// Optimizer for one unit of a session (a REPL input compiled against a live VM). A later
+    /// unit may redefine any top-level function or constant of this one, and the functions and
+    /// lambdas of this unit must then see the new binding: inside their bodies, calls of the
+    /// unit's top-level functions are not replaced by the callee's body and its top-level
+    /// constants are not substituted. The unit's own top-level statements run before any later
+    /// unit exists and are optimised as in a whole program; so are locals.
+    pub fn for_session_unit(level: OptimizationLevel) -> Self {
+        let mut optimizer = Self::new(level);
+        if let Some(inliner) = &mut optimizer.inliner {
+            inliner.set_top_level_open(true);
+        }
+        for pass in &mut optimizer.passes {
+            pass.set_top_level_open(true);
+        }
+        optimizer
+    }
+
     pub fn level(&self) -> OptimizationLevel {
         self.level
     }
